@@ -83,6 +83,7 @@ def gen_mesh_spec(rng, kinds):
     if s["wild"]:
         for _ in range(rng.randint(1, 4)):
             s["points"][rng.below(len(s["points"]))][rng.below(3)] = rng.choice(SPECIAL)
+    s["f32"] = (not s["wild"]) and rng.chance(0.2)  # coordinates held in single precision (the special values above need doubles)
     # attributes (Geogram's registered element types only), on whatever containers exist
     if rng.chance(0.6):
         for _ in range(rng.randint(1, 3)):
@@ -118,7 +119,7 @@ class C04(Sim):
     RULE = ("one run = a pool of 1-3 meshes and one simulated file system; saver / loader / cross-reader / cross-writer / querier / config clients under a "
             "seeded scheduler; distinct = distinct (mesh kinds, (operation, format, switches) sequence); non-trivial = >= 1 file saved or planted and >= 1 load or cross-read judged")
     FAULT_KINDS = ["lexical", "config_flip", "reject"]
-    PROBES = ["dialect_interleave", "dialect_relative_indices", "dialect_polylines", "dialect_count_same_line", "dialect_counts_on_header_line", "dialect_face_style", "dialect_vextra", "dialect_ref", "dialect_version", "dialect_nedges", "dialect_normals", "dialect_header", "edge_unmarked", "edited_then_saved", "wild_coordinates", "polygon_to_triangle_format", "attributes_roundtrip", "query_before_save", "resave_after_load", "stl", "hex", "export_edges_off",
+    PROBES = ["float32_coordinates", "dialect_ascii", "dialect_multi_solid", "dialect_interleave", "dialect_relative_indices", "dialect_polylines", "dialect_count_same_line", "dialect_counts_on_header_line", "dialect_face_style", "dialect_vextra", "dialect_ref", "dialect_version", "dialect_nedges", "dialect_normals", "dialect_header", "edge_unmarked", "edited_then_saved", "wild_coordinates", "polygon_to_triangle_format", "attributes_roundtrip", "query_before_save", "resave_after_load", "stl", "hex", "export_edges_off",
               "crlf", "comments", "exp_floats", "no_final_newline", "cross_read", "cross_write_load", "save_load", "overwrite", "faceless_stl", "ignore_elements", "raw_load"]
     QUICK_RUNS = 2500
     THOROUGH_RUNS = 250000
@@ -158,7 +159,12 @@ class C04(Sim):
         self.meshes = []
         for s in cfg["world"]["meshes"]:
             d = RawMeshData()
-            d.vertices += [list(p) for p in s["points"]]
+            if s.get("f32"):
+                # single-precision coordinates (what a binary STL or a float32 array gives): a value like 0.1f is 0.10000000149011612
+                d.vertices += [M.Vec(np.array(p, dtype=np.float32)) for p in s["points"]]
+                self.probes["float32_coordinates"] += 1
+            else:
+                d.vertices += [list(p) for p in s["points"]]
             if s["edges"]:
                 d.edges += [tuple(e) for e in s["edges"]]
             if s["faces"]:
@@ -270,7 +276,7 @@ class C04(Sim):
             st = getattr(self, "_re", None)
             surf = [i for i in range(len(self.meshes)) if type(self.meshes[i]).__name__ == "SurfaceMesh"]
             if st is None or st["stage"] > 4 or not surf:
-                fm = r.choice([f for f in cfg["formats"] if f in ("geogram_ascii", "obj", "mesh", "off")] or cfg["formats"])
+                fm = r.choice(cfg["formats"])
                 st = self._re = {"stage": 0, "fmt": fm, "p1": "r%d.%s" % (self.nfile, fm), "src": r.choice(surf) if surf else 0}
             st["stage"] += 1
             g = st["stage"]
@@ -284,10 +290,13 @@ class C04(Sim):
                 return {"c": c, "op": "query", "m": r.below(self._targets()), "which": "degree"}
             tgt = len(self.meshes) + st["n_loaded"]
             if g == 3:
-                return {"c": c, "op": "edit", "m": tgt, "how": r.choice(["triangulate", "fan"]), "i": r.below(1 << 16)}
+                if r.chance(0.3):
+                    return {"c": c, "op": "query", "m": tgt, "which": "degree"}  # (no edit this time: the loaded mesh is saved again as it is)
+                return {"c": c, "op": "edit", "m": tgt, "how": r.choice(["triangulate", "fan", "nudge"]), "i": r.below(1 << 16)}
             if g == 4:
-                st["p2"] = "r%d.%s" % (self.nfile, st["fmt"])
-                return {"c": c, "op": "save", "m": tgt, "fmt": st["fmt"], "path": st["p2"]}
+                f2 = st["fmt"] if r.chance(0.5) else r.choice(cfg["formats"])  # back into the same format, or into another one
+                st["p2"] = "r%d.%s" % (self.nfile, f2)
+                return {"c": c, "op": "save", "m": tgt, "fmt": f2, "path": st["p2"]}
             return {"c": c, "op": r.choice(["load", "xread"]), "path": st.get("p2", st["p1"]), "keep": False, "raw": r.chance(0.3)}
         if c == "querier":
             return {"c": c, "op": "query", "m": r.below(self._targets()), "which": r.choice(["border", "adjacency", "degree"])}
@@ -297,7 +306,7 @@ class C04(Sim):
             # a surface that was just loaded from a file is edited, then (next) saved again
             self._just_loaded = None
             self._just_edited = jl
-            return {"c": c, "op": "edit", "m": jl, "how": r.choice(["triangulate", "fan"]), "i": r.below(1 << 16)}
+            return {"c": c, "op": "edit", "m": jl, "how": r.choice(["triangulate", "fan", "nudge", "nudge"]), "i": r.below(1 << 16)}
         if c == "saver" and r.chance(0.12):
             # the caller changes a mesh between saves: edits the faces of a surface in an editing block (also of a surface that was loaded
             # from a file), or un-marks a declared (hard) edge.  What is saved afterwards is the mesh as it stands then.
@@ -306,7 +315,7 @@ class C04(Sim):
                 if self.loaded and r.chance(0.7):
                     tgt = len(self.meshes) + r.below(len(self.loaded))  # preferably a mesh that came out of a file
                 self._just_edited = tgt
-                return {"c": c, "op": "edit", "m": tgt, "how": r.choice(["triangulate", "fan"]), "i": r.below(1 << 16)}
+                return {"c": c, "op": "edit", "m": tgt, "how": r.choice(["triangulate", "fan", "nudge", "nudge"]), "i": r.below(1 << 16)}
             return {"c": c, "op": "unmark", "m": r.below(self._targets()), "i": r.below(1 << 16)}
         if c == "saver" or (c in ("loader", "xreader") and not self.files):
             path = "f%d.%s" % (self.nfile, fmt)
@@ -366,7 +375,11 @@ class C04(Sim):
         elif fmt == "stl":
             if r.chance(0.3):
                 dia["normals"] = "zero"
-            if r.chance(0.3):
+            if r.chance(0.35):
+                dia["ascii"] = True                       # the text form of the format
+                if r.chance(0.5):
+                    dia["multi_solid"] = True             # ... with the triangles spread over two `solid ... endsolid` blocks
+            elif r.chance(0.3):
                 dia["header"] = r.choice(["exported", "COLOR=", "binary"])
         return {"c": c, "op": "plant", "m": r.below(self._targets()), "fmt": fmt, "path": "x%d.%s" % (self.nfile, fmt), "opts": opts, "dialect": dia, "pseed": r.below(1 << 20)}
 
@@ -374,6 +387,8 @@ class C04(Sim):
         op = ev["op"]
         if op in ("save_unknown_ext", "load_missing", "load_unknown_ext"):
             return ev["m"] < self._targets()
+        if op == "edit" and ev.get("how") == "nudge":
+            return ev["m"] < self._targets() and len(self._mesh(ev["m"]).vertices) > 0
         if op in ("edit", "unmark"):
             if ev["m"] >= self._targets():
                 return False
@@ -523,6 +538,13 @@ class C04(Sim):
             m = self._mesh(ev["m"])
 
             def edit():
+                if ev["how"] == "nudge":
+                    # one coordinate is changed IN PLACE, through the vector the container holds (no container method is involved)
+                    v_ = m.vertices[ev["i"] % len(m.vertices)]
+                    k_ = (ev["i"] >> 8) % 3
+                    if isinstance(v_, np.ndarray) and v_.dtype.kind == "f":
+                        v_[k_] = float(v_[k_]) * 0.5 + 0.375
+                    return
                 with M.mesh.SurfaceSubdivision(m) as ed:
                     if ev["how"] == "triangulate":
                         ed.triangulate()
@@ -615,10 +637,17 @@ class C04(Sim):
             ex = RC.project(fmt, mesh)
             dia = dict(ev.get("dialect") or {})
             vextra = dia.pop("vextra", None)
+            multi = dia.pop("multi_solid", None)
             data = RC.write(fmt, ex, seed=ev["pseed"], **ev["opts"], **dia)
             if vextra:
                 import re
                 data = re.sub(rb"(?m)^(v[ \t]+\S+[ \t]+\S+[ \t]+\S+)", rb"\1 0.5 0.25 1" if vextra == "rgb" else rb"\1 1.0", data)
+            if multi and data.count(b"endfacet") >= 2:
+                # close the solid after the first half of the facets and open a second one (many writers emit one solid per part)
+                parts = data.split(b"endfacet")
+                h = len(parts) // 2
+                nl = b"\r\n" if b"\r\n" in data else b"\n"
+                data = b"endfacet".join(parts[:h]) + b"endfacet" + nl + b"endsolid ref" + nl + b"solid second" + b"endfacet".join(parts[h:])
             for k_ in (ev.get("dialect") or {}):
                 self.probes["dialect_" + k_] += 1
             self.fs.files[self.fs.root + ev["path"]] = data
